@@ -79,7 +79,7 @@ def shrink_history(dh, wd, h, predicate, env=None, max_trials=60):
     return ddmin(list(h["ops"]), fails, max_trials=max_trials)
 
 
-def judge_slashing(hs):
+def judge_slashing(hs, orderfree=False):
     """Evaluates the Lean Spec predicates on what the implementation released.
     Returns list of (history index, kind, key, line index) for violations."""
     lines = []
@@ -93,7 +93,7 @@ def judge_slashing(hs):
                 lines.append("jatt %s %s" % (key.hex(), data))
                 index.append((hi, "att", key, i, j, data))
             elif k == "prop":
-                lines.append("jprop %s %s" % (key.hex(), data))
+                lines.append("%s %s %s" % ("jpropd" if orderfree else "jprop", key.hex(), data))
                 index.append((hi, "prop", key, i, j, data))
     out = run_model(lines)
     bad = []
